@@ -21,7 +21,7 @@ RULE = ("schemas with nested schemas, config types, lists of schemas / config ty
         "cincoconfig.ValidationError (a ValueError), ref_path == the declared path (a.b[2].c, d[key]) and a message "
         "starting with that path (plus ' (name)' for a friendly name); non-trivial = >= 3 rejections judged over >= 2 "
         "routes; distinct = distinct (schema, probes)")
-REQUIRED = ("xml_documents_with_a_typed_element_whose_text_does_not_parse", "schemas_with_an_include_field_inside_a_config_type", "schemas_with_sections_created_by_a_deep_dotted_name", "rejections_by_validator_callback:fail-empty", "schemas_with_sections_named_like_config_methods", "sections_nested_in_a_section_of_the_same_name", "cases_with_library_warnings_as_errors", "duplicate_key_documents", "moved_object_probes:list-item", "moved_object_probes:section", "schemas_with_premounted_fragments", "object_item_probes", "reordered_list_probes", "pos:dict-key", "rejections_judged", "route:attr", "route:dotted", "route:ctor", "route:load_tree", "route:loads", "pos:nested",
+REQUIRED = ("lists_reassigned_from_themselves_then_reordered", "values_offered_to_names_that_take_none", "xml_documents_with_a_typed_element_whose_text_does_not_parse", "schemas_with_an_include_field_inside_a_config_type", "schemas_with_sections_created_by_a_deep_dotted_name", "rejections_by_validator_callback:fail-empty", "schemas_with_sections_named_like_config_methods", "sections_nested_in_a_section_of_the_same_name", "cases_with_library_warnings_as_errors", "duplicate_key_documents", "moved_object_probes:list-item", "moved_object_probes:section", "schemas_with_premounted_fragments", "object_item_probes", "reordered_list_probes", "pos:dict-key", "rejections_judged", "route:attr", "route:dotted", "route:ctor", "route:load_tree", "route:loads", "pos:nested",
             "pos:ctype", "pos:list-item", "pos:dict-entry", "pos:list-scalar", "pos:subconfig-slot", "friendly_names_judged",
             "after_prior_load")
 ASSUMPTIONS = ["unknown keys (AttributeError) and non-map top-level documents are not 'a value for a declared field'",
@@ -71,6 +71,19 @@ def generate(rng, ctx):
             if all(ch["key"] != "inc1" for ch in sub["fields"]):
                 sub["fields"].append({"kind": "field", "key": "inc1", "family": "include", "params": {}})
                 incs.append(sub["key"] + ".inc1")
+    # names that take no value: a computed field without a setter, an instance method (root or section)
+    if rng.random() < 0.3:
+        from .c20 import gen_method
+
+        names = []
+        holders = [("", schema)] + [(ch["key"], ch) for ch in schema["fields"] if ch["kind"] == "schema"]
+        for _ in range(rng.choice([1, 2])):
+            hp, h = rng.choice(holders)
+            k = gen.pick_keys(rng, 1, avoid={ch["key"] for ch in h["fields"]})[0]
+            h["fields"].append({"kind": "field", "key": k, "family": "virtual", "params": {"returns": "v"}} if rng.random() < 0.6
+                               else gen_method(rng, k))
+            names.append((hp + "." if hp else "") + k)
+        schema["readonly_names"] = names
     # an include field inside a configuration type that is used as a section
     ctypes = [ch for ch in schema["fields"] if ch["kind"] == "ctype"]
     if ctypes and rng.random() < 0.6:
@@ -119,6 +132,14 @@ def generate(rng, ctx):
         kids = model.fields_of(owner)["fields"]
         if any(ch["key"] == nd["key"] + "_tw" for ch in kids) or nd["key"].endswith("_tw"):
             continue
+        if nd["kind"] == "schema":
+            continue  # (a section schema lives under one key; a configuration of it is no value for another section)
+        # the twin uses the very same item schema / configuration type (a configuration of another schema is refused)
+        target = nd["item"] if is_list else nd
+        if target["kind"] == "ctype":
+            target["schema"].setdefault("share", "t:" + path)
+        else:
+            target.setdefault("share", "s:" + path)
         tw = dict(nd)
         tw["key"] = nd["key"] + "_tw"
         tw.pop("style", None)
@@ -184,7 +205,7 @@ def generate(rng, ctx):
         probes.append({"pos": tgt["pos"], "path": tgt["path"], "bad": bad, "routes": rng.sample(routes, rng.choice([2, 3, 5])),
                        "index": rng.choice([0, 0, 1, 2]), "nitems": rng.choice([1, 2, 3]), "equal_items": rng.random() < 0.5,
                        "key": rng.choice(["k1", "kk", "a.b", "K"]), "fmt": rng.choice(FMT_FOR_LOADS),
-                       "prior_load": rng.random() < 0.4, "reorder": rng.choice([None, None, "insert0", "pop0", "reverse", "swap", "swap", "rotate"]),
+                       "prior_load": rng.random() < 0.4, "reorder": rng.choice([None, None, "insert0", "pop0", "reverse", "swap", "swap", "rotate", "reassign-plus", "reassign-copy"]),
                        "object_items": rng.random() < 0.5, "moved": rng.random() < 0.5, "dupkey": rng.random() < 0.3,
                        "move_how": rng.choice(["append", "setitem", "assign", "insert0"])})
     for path in incs:
@@ -336,8 +357,53 @@ def _run(case, ctx, res, cc, env, rng, judged, routes_seen):
             if not text.startswith(prefix + ":"):
                 res.viol("M-exc", "text:" + feat, "rejecting %r at %s: the message %r does not start with %r" % (pr["bad"], where, text[:120], prefix))
                 return
+    if case["schema"].get("readonly_names") and not _readonly_names(case, ctx, res, cc, env):
+        return
     if judged >= 3 and len(routes_seen) >= 2:
         res.nontrivial(case["schema"], case["probes"])
+
+
+def _readonly_names(case, ctx, res, cc, env):
+    """Computed fields without a setter and instance methods are declared fields that take no value at all: offering one by
+    any route is a rejection like the others - the library's error, with the path."""
+    import json as _json
+
+    for path in case["schema"]["readonly_names"]:
+        head, _, key = path.rpartition(".")
+        nested = {}
+        cur = nested
+        for seg in path.split(".")[:-1]:
+            cur[seg] = {}
+            cur = cur[seg]
+        cur[key] = 5
+        for route in ("attr", "dotted", "ctor", "load_tree", "loads"):
+            drv = history.Driver(ctx, res, case["schema"], env)
+            cfg = drv.cfg
+            try:
+                if route == "attr":
+                    setattr(spec.get_path(cfg, head) if head else cfg, key, 5)
+                elif route == "dotted":
+                    cfg[path] = 5
+                elif route == "ctor":
+                    drv.built.schema(**nested)
+                elif route == "load_tree":
+                    cfg.load_tree(nested)
+                else:
+                    cfg.loads(_json.dumps(nested), "json")
+                err = None
+            except Exception as exc:
+                err = exc
+            res.count("values_offered_to_names_that_take_none")
+            if err is None:
+                continue  # (accepted: nothing to judge here)
+            if not isinstance(err, cc.ValidationError):
+                res.viol("M-exc", "type:readonly-name", "offering 5 to %s (a computed field without a setter / an instance method) via "
+                         "%s raised %s: %s instead of a ValidationError" % (path, route, type(err).__name__, str(err)[:100]))
+                return False
+            if err.ref_path != path or not str(err).startswith(path):
+                res.viol("M-exc", "path:readonly-name", "offering 5 to %s via %s: the error names %r (%s)" % (path, route, err.ref_path, str(err)[:100]))
+                return False
+    return True
 
 
 def attempt_objects(cc, drv, pr, route, rng):
@@ -644,7 +710,20 @@ def attempt(cc, ctx, drv, pr, route, rng):
         try:
             lst = spec.get_path(cfg, list_path)
             n0 = len(lst)
-            if pr["reorder"] == "insert0":
+            if pr["reorder"] in ("reassign-plus", "reassign-copy") and "." not in list_path and "[" not in list_path:
+                # the field is given a NEW list made from the one it holds (lst + [...], lst.copy()); that list is then
+                # re-ordered in place
+                setattr(cfg, list_path, (lst + [copy.deepcopy(items[0])]) if pr["reorder"] == "reassign-plus" else lst.copy())
+                lst = spec.get_path(cfg, list_path)
+                n1 = len(lst)
+                if pr["nitems"] % 2 and idx > 0:
+                    del lst[0]
+                    new_idx = idx - 1
+                else:
+                    lst.reverse()
+                    new_idx = n1 - 1 - idx
+                drv.res.count("lists_reassigned_from_themselves_then_reordered")
+            elif pr["reorder"] == "insert0":
                 lst.insert(0, copy.deepcopy(items[0]))
                 new_idx = idx + 1
             elif pr["reorder"] == "pop0" and idx > 0:
